@@ -28,6 +28,44 @@ theorem unresolvedHere_attr (env : Env) (s : FStack) (name : Nat) (attrs : List 
   right
   exact ⟨a, ha, by simp [this]⟩
 
+/-- The top of the stack binds the empty prefix to a real namespace. -/
+def HasDefault (L : List (Nat × Nat)) : Prop := ∃ n, (Env.emptyPrefix, n) ∈ L ∧ n ≠ Env.noNamespace
+
+theorem hasDefaultNamespace_iff (s : FStack) : s.hasDefaultNamespace = true ↔ HasDefault s.top := by
+  unfold FStack.hasDefaultNamespace HasDefault
+  simp only [List.any_eq_true, Bool.and_eq_true, beq_iff_eq, bne_iff_ne]
+  constructor
+  · rintro ⟨⟨p, n⟩, hm, hp, hn⟩
+    simp only at hp hn
+    subst hp
+    exact ⟨n, hm, hn⟩
+  · rintro ⟨n, hm, hn⟩
+    exact ⟨(Env.emptyPrefix, n), hm, rfl, hn⟩
+
+/-- Pushing the same declarations keeps "a default namespace here implies one there". -/
+theorem push_default {sA sB : FStack} (d : List (Nat × Nat))
+    (h : HasDefault sA.top → HasDefault sB.top) : HasDefault (sA.push d).top → HasDefault (sB.push d).top := by
+  rintro ⟨n, hm, hn⟩
+  rw [push_top, mem_fullnameInfoNew] at hm
+  rcases hm with h1 | ⟨h1, h2⟩
+  · exact ⟨n, by rw [push_top, mem_fullnameInfoNew]; exact Or.inl h1, hn⟩
+  · obtain ⟨m, hm2, hn2⟩ := h ⟨n, h1, hn⟩
+    exact ⟨m, by rw [push_top, mem_fullnameInfoNew]; exact Or.inr ⟨hm2, h2⟩, hn2⟩
+
+/-- The check of /repo a32c6f4 passes for the clone when it passes in place. -/
+theorem noDefault_transfer (a : Bool) (sIn sCl : FStack) (h4 : HasDefault sCl.top → HasDefault sIn.top)
+    (h : (!(a && sIn.hasDefaultNamespace)) = true) : (!(a && sCl.hasDefaultNamespace)) = true := by
+  cases a with
+  | false => rfl
+  | true =>
+    simp only [Bool.true_and, Bool.not_eq_true'] at h ⊢
+    cases hc : sCl.hasDefaultNamespace with
+    | false => rfl
+    | true =>
+      have := (hasDefaultNamespace_iff sIn).mpr (h4 ((hasDefaultNamespace_iff sCl).mp hc))
+      rw [h] at this
+      cases this
+
 theorem push_sub {sA sB : FStack} (d : List (Nat × Nat)) (P : Nat × Nat → Prop)
     (h : ∀ b ∈ sA.top, P b → b ∈ sB.top) : ∀ b ∈ (sA.push d).top, P b → b ∈ (sB.push d).top := by
   intro b hb hp
@@ -39,18 +77,19 @@ theorem push_sub {sA sB : FStack} (d : List (Nat × Nat)) (P : Nat × Nat → Pr
 mutual
   theorem writable_transfer (env : Env) (U : Nat → Prop) : ∀ (t : Tree) (sIn sOnly sCl : FStack),
       (∀ b ∈ sOnly.top, b ∈ sCl.top) → (∀ b ∈ sIn.top, U b.2 → b ∈ sCl.top) →
-      (∀ n ∈ unresolvedTree env sOnly t, U n) →
+      (∀ n ∈ unresolvedTree env sOnly t, U n) → (HasDefault sCl.top → HasDefault sIn.top) →
       writableTree env sIn t = true → writableTree env sCl t = true
-    | .node v ks, sIn, sOnly, sCl, H1, H2, H3, hw => by
+    | .node v ks, sIn, sOnly, sCl, H1, H2, H3, H4, hw => by
       cases v with
       | element name =>
         simp only [writableTree, Bool.and_eq_true, List.all_eq_true] at hw ⊢
         simp only [unresolvedTree, List.mem_append] at H3
-        obtain ⟨⟨hn, ha⟩, hk⟩ := hw
+        obtain ⟨⟨⟨hd, hn⟩, ha⟩, hk⟩ := hw
+        have H4' := push_default (sA := sCl) (sB := sIn) (Tree.node (.element name) ks).nsDecls H4
         have H1' := push_sub (sA := sOnly) (sB := sCl) (Tree.node (.element name) ks).nsDecls (fun _ => True)
           (fun b hb _ => H1 b hb)
         have H2' := push_sub (sA := sIn) (sB := sCl) (Tree.node (.element name) ks).nsDecls (fun b => U b.2) H2
-        refine ⟨⟨?_, ?_⟩, ?_⟩
+        refine ⟨⟨⟨noDefault_transfer _ _ _ H4' hd, ?_⟩, ?_⟩, ?_⟩
         · rw [elementFullname_ok] at hn ⊢
           exact name_transfer env U _ _ _ name false (fun b hb => H1' b hb trivial) H2'
             (fun h => H3 _ (Or.inl (unresolvedHere_elem env _ name _ h))) hn
@@ -60,46 +99,48 @@ mutual
           exact name_transfer env U _ _ _ a true (fun b hb => H1' b hb trivial) H2'
             (fun h => H3 _ (Or.inl (unresolvedHere_attr env _ name _ a haa h))) this
         · exact writableList_transfer env U ks _ _ _ (fun b hb => H1' b hb trivial) H2'
-            (fun n hn => H3 n (Or.inr hn)) hk
+            (fun n hn => H3 n (Or.inr hn)) H4' hk
       | pi t d =>
         simp only [writableTree, Bool.and_eq_true] at hw ⊢
         simp only [unresolvedTree] at H3
-        exact ⟨hw.1, writableList_transfer env U ks _ _ _ H1 H2 H3 hw.2⟩
+        exact ⟨hw.1, writableList_transfer env U ks _ _ _ H1 H2 H3 H4 hw.2⟩
       | document =>
         simp only [writableTree] at hw ⊢
         simp only [unresolvedTree] at H3
-        exact writableList_transfer env U ks _ _ _ H1 H2 H3 hw
+        exact writableList_transfer env U ks _ _ _ H1 H2 H3 H4 hw
       | text s =>
         simp only [writableTree] at hw ⊢
         simp only [unresolvedTree] at H3
-        exact writableList_transfer env U ks _ _ _ H1 H2 H3 hw
+        exact writableList_transfer env U ks _ _ _ H1 H2 H3 H4 hw
       | comment s =>
         simp only [writableTree] at hw ⊢
         simp only [unresolvedTree] at H3
-        exact writableList_transfer env U ks _ _ _ H1 H2 H3 hw
+        exact writableList_transfer env U ks _ _ _ H1 H2 H3 H4 hw
       | «attribute» a s =>
         simp only [writableTree] at hw ⊢
         simp only [unresolvedTree] at H3
-        exact writableList_transfer env U ks _ _ _ H1 H2 H3 hw
+        exact writableList_transfer env U ks _ _ _ H1 H2 H3 H4 hw
       | «namespace» p ns =>
         simp only [writableTree] at hw ⊢
         simp only [unresolvedTree] at H3
-        exact writableList_transfer env U ks _ _ _ H1 H2 H3 hw
+        exact writableList_transfer env U ks _ _ _ H1 H2 H3 H4 hw
   theorem writableList_transfer (env : Env) (U : Nat → Prop) : ∀ (ks : List Tree) (sIn sOnly sCl : FStack),
       (∀ b ∈ sOnly.top, b ∈ sCl.top) → (∀ b ∈ sIn.top, U b.2 → b ∈ sCl.top) →
-      (∀ n ∈ unresolvedList env sOnly ks, U n) →
+      (∀ n ∈ unresolvedList env sOnly ks, U n) → (HasDefault sCl.top → HasDefault sIn.top) →
       writableList env sIn ks = true → writableList env sCl ks = true
-    | [], _, _, _, _, _, _, _ => by simp [writableList]
-    | k :: ks, sIn, sOnly, sCl, H1, H2, H3, hw => by
+    | [], _, _, _, _, _, _, _, _ => by simp [writableList]
+    | k :: ks, sIn, sOnly, sCl, H1, H2, H3, H4, hw => by
       simp only [writableList, Bool.and_eq_true] at hw ⊢
       simp only [unresolvedList, List.mem_append] at H3
-      exact ⟨writable_transfer env U k _ _ _ H1 H2 (fun n hn => H3 n (Or.inl hn)) hw.1,
-        writableList_transfer env U ks _ _ _ H1 H2 (fun n hn => H3 n (Or.inr hn)) hw.2⟩
+      exact ⟨writable_transfer env U k _ _ _ H1 H2 (fun n hn => H3 n (Or.inl hn)) H4 hw.1,
+        writableList_transfer env U ks _ _ _ H1 H2 (fun n hn => H3 n (Or.inr hn)) H4 hw.2⟩
 end
 
-/-- Monotonicity: a stack that offers more writes at least as much. -/
+/-- Monotonicity: a stack that offers more, without a new default namespace, writes at least as
+    much. -/
 theorem writableList_mono (env : Env) (ks : List Tree) (s1 s2 : FStack) (h : ∀ b ∈ s1.top, b ∈ s2.top)
+    (h4 : HasDefault s2.top → HasDefault s1.top)
     (hw : writableList env s1 ks = true) : writableList env s2 ks = true :=
-  writableList_transfer env (fun _ => True) ks s1 s1 s2 h (fun b hb _ => h b hb) (fun _ _ => trivial) hw
+  writableList_transfer env (fun _ => True) ks s1 s1 s2 h (fun b hb _ => h b hb) (fun _ _ => trivial) h4 hw
 
 end XotModel
